@@ -482,7 +482,26 @@ func (s *Server) serveHTTP(w http.ResponseWriter, r *http.Request) (int, error) 
 func trimPathPrefix(u *url.URL, prefix string) *url.URL {
 	// We need to use URL.EscapedPath() when trimming the pathPrefix as
 	// URL.Path is ambiguous about / or %2f - see docs. See #1927
-	trimmedPath := strings.TrimPrefix(u.EscapedPath(), prefix)
+	escapedPath := u.EscapedPath()
+	trimmedPath := strings.TrimPrefix(escapedPath, prefix)
+	if trimmedPath == escapedPath && prefix != "" && strings.HasPrefix(u.Path, prefix) {
+		// the site was matched on the decoded path, but the request spells
+		// part of the prefix with percent-escapes (/f%6Fo for /foo): cut the
+		// escaped path where the decoded prefix ends (one escape sequence
+		// stands for one decoded byte)
+		i := 0
+		for n := 0; n < len(prefix) && i < len(escapedPath); n++ {
+			if escapedPath[i] == '%' {
+				i += 3
+			} else {
+				i++
+			}
+		}
+		if i > len(escapedPath) {
+			i = len(escapedPath)
+		}
+		trimmedPath = escapedPath[i:]
+	}
 	if !strings.HasPrefix(trimmedPath, "/") {
 		trimmedPath = "/" + trimmedPath
 	}
